@@ -28,13 +28,13 @@ CHECKS["C25"] = dict(
     level_note="trusted: TLC, the verif-tagged re-export (pkg/p2p/libp2p/verifbl) and clock setter, the probing of future instants "
                "through a second Blocklist over a write-discarding view of the same store; integer clock in units of 1ns..1h; "
                "negative durations and a clock that runs backwards are not generated",
-    design=[dict(spec="MCBlocklist.tla", cfg="MCBlocklist.cfg", cfg_thorough="MCBlocklist_thorough.cfg", workers=8, timeout=900)],
+    design=[dict(spec="MCBlocklist.tla", cfg="MCBlocklist.cfg", cfg_thorough="MCBlocklist_thorough.cfg", workers=8, timeout=3000)],
     gen=dict(
         quick=[dict(mode="edges", spec="BlocklistGen.tla", cfg="BlocklistGenEdges.cfg", depth=14, max=700, name="edges"),
                dict(mode="sim", spec="BlocklistGen.tla", cfg="BlocklistGenSim.cfg", depth=24, num=8, max=120, name="walks")],
-        thorough=[dict(mode="edges", spec="BlocklistGen.tla", cfg="BlocklistGenEdgesT.cfg", depth=18, max=9000, name="edges", timeout=900),
-                  dict(mode="sim", spec="BlocklistGen.tla", cfg="BlocklistGenSim.cfg", depth=40, num=60, max=1500, name="walks")]),
-    judge=dict(spec="BlocklistTrace.tla", cfg="BlocklistTrace.cfg"),
+        thorough=[dict(mode="edges", spec="BlocklistGen.tla", cfg="BlocklistGenEdgesT.cfg", depth=18, max=6000, name="edges", timeout=3000),
+                  dict(mode="sim", spec="BlocklistGen.tla", cfg="BlocklistGenSim.cfg", depth=40, num=40, max=600, name="walks", timeout=3000)]),
+    judge=dict(spec="BlocklistTrace.tla", cfg="BlocklistTrace.cfg"), judge_timeout=3600, driver_timeout=3000,
     corrupt=_c25_corrupt,
     nontrivial=lambda s: any(o["op"] == "add" for o in s["ops"]) and any(o["op"] in ("tick", "remove") for o in s["ops"]),
     rule="TLC-generated histories over 2 peers (edges mode: one shortest history per (clock, stored entries, last call) edge of the "
@@ -72,20 +72,20 @@ CHECKS["C26"] = dict(
                "critical sections but advances the sequence itself (only while the stub network is available); the network gate of "
                "the real sequencer goroutine and the real wake-up goroutine are bound only by the real-time scenarios, whose "
                "clauses are interval-robust (sequence sampled before/after each call; lower bounds on elapsed time only)",
-    design=[dict(spec="MCBlocker.tla", cfg="MCBlocker.cfg", cfg_thorough="MCBlocker_thorough.cfg", workers=8, timeout=900)],
+    design=[dict(spec="MCBlocker.tla", cfg="MCBlocker.cfg", cfg_thorough="MCBlocker_thorough.cfg", workers=8, timeout=3000)],
     gen=dict(
         quick=[dict(mode="edges", spec="BlockerGen.tla", cfg="BlockerGenDetEdges1q.cfg", depth=18, max=1100, name="det-edges-1peer"),
                dict(mode="sim", spec="BlockerGen.tla", cfg="BlockerGenDetSim.cfg", depth=30, num=12, max=250, name="det-walks"),
                dict(mode="edges", spec="BlockerGen.tla", cfg="BlockerGenRtEdges.cfg", depth=12, max=45, name="rt-edges"),
                dict(mode="sim", spec="BlockerGen.tla", cfg="BlockerGenRtSim.cfg", depth=12, num=3, max=15, salt=1, name="rt-walks")],
-        thorough=[dict(mode="edges", spec="BlockerGen.tla", cfg="BlockerGenDetEdges1.cfg", depth=18, max=5000, name="det-edges-1peer", timeout=900),
-                  dict(mode="edges", spec="BlockerGen.tla", cfg="BlockerGenDetEdges2.cfg", depth=18, max=5000, name="det-edges-2peers-T2", timeout=1200),
-                  dict(mode="edges", spec="BlockerGen.tla", cfg="BlockerGenDetEdges.cfg", depth=18, max=4000, name="det-edges-2peers-T3", timeout=1800),
+        thorough=[dict(mode="edges", spec="BlockerGen.tla", cfg="BlockerGenDetEdges1.cfg", depth=18, max=5000, name="det-edges-1peer", timeout=3000),
+                  dict(mode="edges", spec="BlockerGen.tla", cfg="BlockerGenDetEdges2.cfg", depth=18, max=5000, name="det-edges-2peers-T2", timeout=3000),
+                  dict(mode="edges", spec="BlockerGen.tla", cfg="BlockerGenDetEdges.cfg", depth=18, max=4000, name="det-edges-2peers-T3", timeout=3000),
                   dict(mode="sim", spec="BlockerGen.tla", cfg="BlockerGenDetSim.cfg", depth=45, num=50, max=1500, name="det-walks"),
                   dict(mode="edges", spec="BlockerGen.tla", cfg="BlockerGenRtEdges.cfg", depth=12, max=400, name="rt-edges"),
                   dict(mode="sim", spec="BlockerGen.tla", cfg="BlockerGenRtSim.cfg", depth=14, num=25, max=150, salt=1, name="rt-walks")]),
     post_gen=_c26_front,
-    judge=dict(spec="BlockerTrace.tla", cfg="BlockerTrace.cfg"),
+    judge=dict(spec="BlockerTrace.tla", cfg="BlockerTrace.cfg"), judge_timeout=3600, driver_timeout=3000,
     corrupt=corrupt_field("cb", "sq", lambda e: 0),
     selftest_scenarios=400,
     nontrivial=lambda s: any(o["op"] == "flag" for o in s["ops"]) and any(o["op"] in ("sweep", "await", "wait") for o in s["ops"]),
@@ -128,14 +128,14 @@ CHECKS["C40"] = dict(
                "process() is parked at the hook or idle; the goroutines started by Subscribe are waited for (channel lengths) before "
                "the next operation, i.e. a fired error channel queues all its unsubscriptions at once. PublishArray, the rpc-backed "
                "notifiers and NotifierWithDelay are not exercised",
-    design=[dict(spec="MCPubSub.tla", cfg="MCPubSub.cfg", cfg_thorough="MCPubSub_thorough.cfg", workers=8, timeout=1200),
-            dict(spec="MCPubSub.tla", cfg="MCPubSubOrdered.cfg", cfg_thorough="MCPubSubOrdered_thorough.cfg", workers=8, timeout=900)],
+    design=[dict(spec="MCPubSub.tla", cfg="MCPubSub.cfg", cfg_thorough="MCPubSub_thorough.cfg", workers=8, timeout=3000),
+            dict(spec="MCPubSub.tla", cfg="MCPubSubOrdered.cfg", cfg_thorough="MCPubSubOrdered_thorough.cfg", workers=8, timeout=3000)],
     gen=dict(
         quick=[dict(mode="edges", spec="PubSubGen.tla", cfg="PubSubGenEdges.cfg", depth=14, max=1500, name="edges"),
                dict(mode="sim", spec="PubSubGen.tla", cfg="PubSubGenSim.cfg", depth=22, num=10, max=200, name="walks")],
-        thorough=[dict(mode="edges", spec="PubSubGen.tla", cfg="PubSubGenEdges.cfg", depth=14, name="edges"),
-                  dict(mode="sim", spec="PubSubGen.tla", cfg="PubSubGenSim.cfg", depth=30, num=120, max=4000, name="walks")]),
-    judge=dict(spec="PubSubTrace.tla", cfg="PubSubTrace.cfg"),
+        thorough=[dict(mode="edges", spec="PubSubGen.tla", cfg="PubSubGenEdges.cfg", depth=14, name="edges", timeout=3000),
+                  dict(mode="sim", spec="PubSubGen.tla", cfg="PubSubGenSim.cfg", depth=30, num=100, max=3000, name="walks", timeout=3000)]),
+    judge=dict(spec="PubSubTrace.tla", cfg="PubSubTrace.cfg"), judge_timeout=3600, driver_timeout=3000,
     corrupt=_c40_corrupt,
     selftest_scenarios=200,
     nontrivial=lambda s: any(o["op"] == "sub" for o in s["ops"]) and any(o["op"] == "pub" for o in s["ops"]),
